@@ -137,8 +137,9 @@ def coq_sources():
             for f in sorted(os.listdir(d)):
                 if f.endswith(".v"):
                     res.append(os.path.join(sub, f))
-    if os.path.exists(os.path.join(COQ, "Extract.v")):
-        res.append("Extract.v")
+    for f in ("Extract.v", "ExtractBranch.v"):
+        if os.path.exists(os.path.join(COQ, f)):
+            res.append(f)
     return res
 
 
